@@ -17,35 +17,35 @@ def e1(what, space, oracle, rest=''):
             'Trusted: the reference model, the Go toolchain. Not covered: inputs outside the declared alphabets/bounds (DESIGN.md section 7).')
 
 CHECKS = {
-    'C01': e1('running bit count', 'bitmaps <=6 words over a 12-word core alphabet and <=4 words with one word from a 245-word wide alphabet (thorough 7/5) x every position x every index flavour', 'a bit-by-bit running count') + ('DESIGN.md section 4 C01',),
-    'C02': e1('naive 1-position scan', 'the C01 bitmap spaces plus the byte-lane sweep (every byte value in every lane under every 00/ff background, 3 embeddings) x every valid i x both selects and both index builders', 'the list of 1-positions of a naive scan') + ('DESIGN.md section 4 C02',),
+    'C01': e1('running bit count', 'bitmaps <=6 words over a 12-word core alphabet and <=4 words with one word from a 245-word wide alphabet (thorough 7/5) x every position x every index flavour, plus a length sweep (every length 0..520 words, thorough 2100, x 4 patterns) in which every returned index is re-checked after the next one has been built', 'a bit-by-bit running count') + ('DESIGN.md section 4 C01',),
+    'C02': e1('naive 1-position scan', 'the C01 bitmap spaces, long sparse bitmaps (20..70 words, thorough 130, all zero except <=3 islands of popcount 1/2/31/32/33/63/64 at every position), a length sweep 0..520 words with index re-check, and the byte-lane sweep (every byte value in every lane under every 00/ff background, 3 embeddings) x every valid i x both selects and both index builders', 'the list of 1-positions of a naive scan') + ('DESIGN.md section 4 C02',),
     'C03': e1('recursive pre-order walk, release and -tags debug builds', 'every level mask of height <=12 x every node, plus mask/path families for every height <=30; the same enumeration again in a second binary built with -tags debug (complete to height 10)', 'an explicit recursive pre-order walk numbering stored nodes (closed form for tall trees, cross-checked against the walk)', ' Two configurations (release, debug contracts) are both enumerated.') + ('DESIGN.md section 4 C03',),
     'C04': e1('filter of the reference node list', 'every level mask of height <=5 x every ordered (from,to) pair of a boundary set around every node, height 6 with {p,p+-1} pairs, tall sparse masks to height 30 with narrow windows; Decode on every subset bitmap of masks with <=16 stored nodes x 4 bitmap shapes and empty/full/singleton/pair subsets to height 6', 'the stored nodes of the recursive walk, sorted and filtered') + ('DESIGN.md section 4 C04',),
     'C05': e1('pre-order successor walk over the WHOLE domain', 'the entire domain: all 2^32-33 (height, index) pairs, in both tiers', 'a pre-order successor function walked in index order, both directions (IndexToPath and PathToIndex) judged against it', ' This check is complete over its whole domain, not only below a bound.') + ('DESIGN.md section 4 C05',),
-    'C08': e1("'0'/'1' bit-string arithmetic", 'all strings of length <=2 over all 256 bytes and <=4 over 8 bytes x 4 widths; every in-range word list to a width-dependent length; every ordered string pair x every (from,end) window', "the string's bit rendering cut into n-bit groups") + ('DESIGN.md section 4 C08',),
-    'C09': e1("Go string order on '0'/'1' renderings", 'sources (s,from,to) over a 6-byte alphabet with stems of 7/8/9 bytes x every bit range; Cmp on ALL ordered pairs of distinct bit strings; CmpUpto/StrCmpUpto on plain strings x all encodings, StrCmpUpto from an alphabet of 8 call frames x 2 dead-stack patterns', "comparison of the '0'/'1' renderings (lexicographic, prefix first)") + ('DESIGN.md section 4 C09',),
+    'C08': e1("'0'/'1' bit-string arithmetic", 'all strings of length <=2 over all 256 bytes and <=4 over 8 bytes (plus strings of 9..67 bytes) x 4 widths; every in-range word list to a width-dependent length; every ordered pair of short strings x every (from,end) window; every ordered pair of 48 strings of 8..19 bytes and single-byte flips of bases of every length 1..40 x every from x 7 ends', "the string's bit rendering cut into n-bit groups") + ('DESIGN.md section 4 C08',),
+    'C09': e1("Go string order on '0'/'1' renderings", 'sources (s,from,to) over a 7-byte alphabet (one member of every byte class) with stems of 7/8/9 bytes in 4 variants (first byte differing by >=128, eighth byte 0x80) and every stem length 0..40 x every bit range; Cmp on ALL ordered pairs of distinct bit strings (1.9e8); CmpUpto/StrCmpUpto on plain strings x all encodings, StrCmpUpto from an alphabet of 8 call frames x 2 dead-stack patterns', "comparison of the '0'/'1' renderings (lexicographic, prefix first)") + ('DESIGN.md section 4 C09',),
     'C10': e1("'0'/'1' strings and string order", 'every height <=32 x length <=min(h,10) x every prefix, and every ordered pair of equal height', "the prefix as a '0'/'1' string; pre-order = string order") + ('DESIGN.md section 4 C10',),
     'C11': e1('slice of the bit string', 'every string of length <=5 over 6 bytes x every start bit in [0,8len+9] x every width 0..32; PathsOf on key lists of length <=4', "a slice of the string's '0'/'1' rendering, zero-extended") + ('DESIGN.md section 4 C11',),
-    'C12': e1('set of ints; all Builder histories to depth 3', 'every subset of 11 boundary positions x 11 sizes x every probe in [-70, 64w+70); every OfMany sequence of <=3 segments (192-segment alphabet) in the domain; every Builder history of <=3 operations over a 216-operation alphabet (and 4..5 over a 10-operation one) from two builders', 'a set-of-ints model (bits, running offset, word count)') + ('DESIGN.md section 4 C12',),
-    'C13': e1('linear scan', 'every bitmap of 1..5 words over a 7-word alphabet x every range 0<=i<=end<=64len', 'a linear scan of the range') + ('DESIGN.md section 4 C13',),
-    'C14': e1('bit copy / popcount accounting', '7 widths x every value list of length <=5 over 5 values and long lists with <=2 deviations; every bitmap of <=3 words over 5 words x every 0<=from<=to<=64len', 'low-w-bit extraction, popcount accounting and a bit-by-bit copy (result length included, input unchanged)') + ('DESIGN.md section 4 C14',),
-    'C16': e1('first difference / distinct truncations of bit strings', 'every non-empty subset of several small key universes behind stems of 0/7/8/9/16/17 bytes x every [s,e) x 6 values of m', "first differing index of the '0'/'1' renderings and the number of distinct truncated bit strings") + ('DESIGN.md section 4 C16',),
+    'C12': e1('set of ints; all Builder histories to depth 3', 'every subset of 11 boundary positions x 11 sizes x every probe in [-70, 64w+70), every subset of 8 far-apart positions; every OfMany sequence of <=3 segments (192-segment alphabet, positions >= size included) whose bits fit the result; every Builder history of <=3 operations over a 216-operation alphabet (and 4..5 over a 10-operation one) from two builders, with a bystander Builder operated between the steps', 'a set-of-ints model (bits, running offset, word count)') + ('DESIGN.md section 4 C12',),
+    'C13': e1('linear scan', 'every bitmap of 1..5 words over a 7-word alphabet x every range 0<=i<=end<=64len, plus long sparse bitmaps (24/33 words, <=2 islands at every pair of positions) x every range with ends near word boundaries', 'a linear scan of the range') + ('DESIGN.md section 4 C13',),
+    'C14': e1('bit copy / popcount accounting', '7 widths x every value list of length <=5 over 5 values and long lists (to 20 words) with <=2 deviations; every bitmap of <=3 words over 5 words x every 0<=from<=to<=64len and 20-word bitmaps x boundary ranges', 'low-w-bit extraction, popcount accounting and a bit-by-bit copy (result length included, input unchanged)') + ('DESIGN.md section 4 C14',),
+    'C16': e1('first difference / distinct truncations of bit strings', 'every non-empty subset of several small key universes (byte classes 00, ASCII, 7f/80, continuation, lead, ff; 4 stem variants) behind stems of 0..65 bytes and every stem length 0..80, four key sets of 31..341 keys taken whole, x every [s,e) x 6 values of m', "first differing index of the '0'/'1' renderings and the number of distinct truncated bit strings") + ('DESIGN.md section 4 C16',),
     'C17': e1('clause-by-clause verdict', 'the C16 key sets x every maxSize in 1..len+1', 'the clauses of the statement evaluated directly (boundaries, sizes, longest common prefix by comparison, strict prefix order)') + ('DESIGN.md section 4 C17',),
-    'C20': e1('size computed while building', 'every type of the kind grammar to depth 2 (thorough 3) built with reflect x a value-shape alphabet; Of and 10 Stat forms per value', 'the size the generator computed bottom-up while building the value') + ('DESIGN.md section 4 C20',),
+    'C20': e1('size computed while building', 'every type of the kind grammar to depth 3 (thorough 4; 7 067 types, 21 242 values) built with reflect x a value-shape alphabet with deliberately shared pointers, long slices and maps, plus hand-written types (unexported/embedded fields, named types); Of and 10 Stat forms per value', 'the size the generator computed bottom-up while building the value') + ('DESIGN.md section 4 C20',),
     'C15': (E2, 'model_checking', 'explicit-state BFS over real TailBitmap objects with a set model and an invariant on every transition',
-            'All states reachable from 11 starts (empty at 3 offsets, three prefilled words in 3 fill orders x 2 offsets, two starts crossing the real 1024-word reclaim threshold) under the per-state alphabet {Set(every hole), Set below Offset, Set beyond the end, Set of a set bit, Compact} are generated by cloning the real object and calling the real method; the full invariant (all Get/Get1 in a window, Offset alignment/monotonicity, no skipped 0, first word not all-ones, Compact changes no Get) is evaluated after EVERY transition before deduplication by a key of every field; every state is re-reached by fresh replay of its shortest path. Right level: the property is about histories of a small mutable object whose reachable state space under this alphabet is finite and fully searched.',
+            'All states reachable from 11 starts (empty at 3 offsets, three prefilled words in 3 fill orders x 2 offsets, two starts crossing the real 1024-word reclaim threshold) under the per-state alphabet {Set(every hole), Set below Offset, Set beyond the end, Set of a set bit, Compact} are generated by cloning the real object and calling the real method; the full invariant (all Get/Get1 in a window, Offset alignment/monotonicity, no skipped 0, first word not all-ones, Compact changes no Get) is evaluated after EVERY transition before deduplication by a key of every field; every state is re-reached by fresh replay of its shortest path, and a sample of states once more with a second TailBitmap operated between the steps. Right level: the property is about histories of a small mutable object whose reachable state space under this alphabet is finite and fully searched.',
             'Trusted: the set-of-ints model; the clone (struct copy + deep copy of Words). Histories outside the alphabet are not covered.', 'DESIGN.md section 4 C15'),
     'C18': (E2, 'model_checking', 'BFS over cursor states x every operation x every answer of a scripted underlying WriterAt, plus unmerged sequences',
-            'For 10 sections every cursor state reachable inside a window is expanded with every operation of the alphabet (Write/WriteAt with buffers 0..6, Seek with every whence/offset) x every answer of the underlying writer (full, short with error, short without error), executed on a real SectionWriter and compared with the statement\'s cursor model: return values, exact (offset, bytes) calls received, containment, cursor afterwards, Size. All sequences of depth <=3 over a reduced alphabet run without state merging; AtToWriter runs every sequence of <=3 Writes.',
+            'For 10 sections every cursor state reachable inside a window is expanded with every operation of the alphabet (Write/WriteAt with buffers 0..6, Seek with every whence/offset) x every answer of the underlying writer (full, short with error, short without error), executed on a real SectionWriter and compared with the statement\'s cursor model: return values, exact (offset, bytes) calls received, containment, cursor afterwards, Size. All sequences of depth <=3 (thorough 4) over a reduced alphabet run without state merging - alone, with a bystander SectionWriter operated between the steps, over a stacked SectionWriter and over an *os.File; AtToWriter runs every sequence of <=3 Writes.',
             'Trusted: the cursor model. Cursors beyond the window are executed once but not expanded.', 'DESIGN.md section 4 C18'),
     'C06': (E3, 'model_checking', 'stateless deviation-bounded DFS over the choices of a scripted io.Reader (all chunkings with <=B deviations) on real Marshal/Unmarshal',
-            'Every frame of a message-kind x payload-length x version alphabet is marshalled and checked byte for byte against an independently built header+encoding; every stream of 1..3 frames over a 6-frame alphabet is read back under every reader chunking with <=1 (thorough 2) deviations from "as much as asked" (short read at any byte, data together with io.EOF, one empty read) and every uniform chunk size. Each execution runs the real code to completion; states = choice-tree nodes, transitions = reader answers.',
+            'Every frame of a message-kind x payload-length x version alphabet is marshalled and checked byte for byte against an independently built header+encoding; every stream of 1..3 frames over a 6-frame alphabet is read back under every reader chunking with <=1 (thorough 2) deviations from "as much as asked" (short read at any byte, data together with io.EOF, one empty read) and every uniform chunk size, through 11 standard-library reader types and 4 writer types, and (a frame above 1 MiB followed by others) under forced short reads around every boundary. Each execution runs the real code to completion; states = choice-tree nodes, transitions = reader answers.',
             'Trusted: hand-built expected wire bytes. Readers respect the io contract apart from the listed deviations.', 'DESIGN.md section 4 C06'),
     'C07': (E3, 'fault_enumeration', 'exhaustive enumeration of cut points, writer byte budgets, read-error offsets and a header-field alphabet (corrupt headers in a memory-limited worker process)',
             'Every cut point of every frame of a 40-frame alphabet x chunkings; every writer byte budget x 2 failure modes; a read error at every offset alone/together with data; a header-size x body-size x version x available-bytes alphabet (body sizes to 2^64-1) executed in a child process under ulimit -v so that a fatal out-of-memory is observed as a dead worker; ReadHeader on every prefix of arbitrary bytes. Expected counts and error causes come from the statement.',
             'Trusted: the scripted reader/writer. Only the listed fault shapes are injected.', 'DESIGN.md section 4 C07'),
     'C19': (E4, 'model_checking', 'preemption-bounded exhaustive schedule exploration (controlled scheduler on automatically instrumented source) + exact argument write-footprint and package-state snapshot oracles',
-            'Every unordered pair of a 43-entry function alphabet (and every triple of a 16-entry sub-alphabet) runs as a 2-/3-thread program on shared inputs under a cooperative scheduler; scheduling points are inserted by a source-to-source instrumenter, regenerated from the working tree on every run, before every statement touching package-level state, a receiver or an alias; all schedules with <=2 (thorough 3) preemptions are executed on the real code and each must reproduce the sequential results with the package state unchanged. Net effects are decided without scheduling: every call x parameter grid x 4 input sets runs with all arguments in read-only mmap memory (any store faults), the deep hash of every package-level variable must not change after a full warm-up, and results must not depend on call order. A free-running -race pass of the same bodies is a reported supplement.',
+            'Every unordered pair of a 43-entry function alphabet (and every triple of a 16-entry sub-alphabet) runs as a 2-/3-thread program on shared inputs under a cooperative scheduler; scheduling points are inserted by a source-to-source instrumenter, regenerated from the working tree on every run, before every statement touching package-level state, a receiver or an alias; all schedules with <=2 (thorough 3) preemptions are executed on the real code and each must reproduce the sequential results with the package state unchanged. Net effects are decided without scheduling: every call x parameter grid x 4 input sets runs with all arguments in read-only mmap memory (any store faults), the deep hash of every package-level variable must not change after a full warm-up, results must not depend on call order, and every value returned during a pass is re-read at its end (a later call must not modify memory the library handed out). A free-running -race pass of the same bodies is a reported supplement.',
             'Trusted: the instrumenter placing points at all shared-state accesses (syntactic, liberal), sequentially consistent memory at statement granularity. Races on memory the instrumenter does not see are left to the footprint oracle and the sampling race pass.', 'DESIGN.md section 4 C19'),
 }
 
